@@ -315,6 +315,10 @@ def tracked_index_rules(ctx) -> None:
 TF = "hugr-py/src/hugr/build/tracked_dfg.py"
 CL = "hugr-py/src/hugr/build/cond_loop.py"
 MUTANTS = [
+    dict(name="outputs-only-when-some", file=TF, expect="C15.R4", old="        self.set_outputs(*self._to_wires(in_wires))",
+         new="        if in_wires:\n            self.set_outputs(*self._to_wires(in_wires))"),
+    dict(name="single-wire-wrapped", file=TF, expect="C15.R4", old="        return [self.track_wire(w) for w in wires]",
+         new="        if hasattr(wires, \"out_port\"):\n            wires = [wires]\n        return [self.track_wire(w) for w in wires]"),
     dict(name="metadata-dropped", file=TF, expect=["C15.R1", "C15.R2"], old="        n = self.add_op(com.op, *wires, metadata=metadata)", new="        n = self.add_op(com.op, *wires)"),
     dict(name="rebind-wrong-port", file=TF, expect="C15.R3", old="            self.tracked[tracked_idx] = n.out(port_offset)", new="            self.tracked[tracked_idx] = n.out(0)"),
     dict(name="rebind-position-index", file=TF, expect="C15.R3", old="            self.tracked[tracked_idx] = n.out(port_offset)", new="            self.tracked[port_offset] = n.out(port_offset)"),
